@@ -5,6 +5,7 @@ Theorems over the hand-written models `JsonHist` (buffer / flusher-queue machine
 -/
 import XonshVerif.Model.JsonHist
 import XonshVerif.Model.LazyJson
+import XonshVerif.Lemmas.LazyJson
 open JsonHist
 
 /-! ## the accounting invariant, for every op sequence and every flusher schedule -/
@@ -322,3 +323,29 @@ theorem C12_cex_len_index :
 example : NoFilter ⟨3, false, false, true⟩ := ⟨rfl, rfl⟩
 example : HInv (run ⟨2, true, true, false⟩ init [.append ⟨1, 0, false⟩, .append ⟨1, 1, false⟩, .flusherRuns]) :=
   C12_accounting _ _
+
+
+/-! ## the self-indexing JSON file: every index entry addresses exactly its node -/
+
+/-- C12 (read-back): for EVERY JSON value — any nesting, any leaf texts, any keys — every node's
+index entry `(offset, size)` produced by `_to_json_with_size` cuts out of the serialised text
+exactly the node's own serialisation.  So a lazy read of any command, field or list element of a
+history file returns the text that was written for it, whatever else the file holds. -/
+theorem C12_lazyjson_addressing (v : LJ.J) (d : LJ.J) (o s : Nat)
+    (h : (d, o, s) ∈ LJ.nodes v (LJ.ser v 0).offs (LJ.ser v 0).sizes) :
+    LJ.slice (LJ.ser v 0).text o s = (LJ.ser d 0).text := by
+  have := (LJ.nodes_located v 0 d o s h).2.2
+  simpa using this
+
+/-- …and the entries never reach outside the text -/
+theorem C12_lazyjson_in_bounds (v : LJ.J) (d : LJ.J) (o s : Nat)
+    (h : (d, o, s) ∈ LJ.nodes v (LJ.ser v 0).offs (LJ.ser v 0).sizes) :
+    o + s ≤ (LJ.ser v 0).text.length := by
+  have := (LJ.nodes_located v 0 d o s h).2.1
+  simpa using this
+
+/-- non-vacuity: a nested value has inner nodes at non-zero offsets, and they are in `nodes` -/
+example :
+    let v : LJ.J := .obj [("\"a\"".toList, .arr [.leaf "1".toList, .leaf "\"xy\"".toList]), ("\"b\"".toList, .leaf "null".toList)]
+    (LJ.nodes v (LJ.ser v 0).offs (LJ.ser v 0).sizes).map (fun n => (n.2.1, n.2.2)) = [(0, 29), (6, 10), (7, 1), (10, 4), (23, 4)] ∧
+    String.ofList (LJ.ser v 0).text = "{\"a\": [1, \"xy\"]\n, \"b\": null}\n" := by decide
